@@ -198,6 +198,30 @@ def s_less_equal(a, b, *r, **k):
     return _np.less_equal(a, b, *r, **k)
 
 
+def _realize_int_list(obj):
+    """numpy infers an integer dtype from a list of Python ints, but an object dtype from symbolic ints: at this C
+    boundary all-integer lists are realised (the solver enumerates the values within their bounds), so that code which
+    branches on the dtype behaves as it does on real integers"""
+    from crosshair.tracers import NoTracing
+    from crosshair.core import realize
+    from crosshair.libimpl.builtinslib import SymbolicInt
+    with NoTracing():
+        ok = type(obj) in (list, tuple) and len(obj) > 0 and \
+            all(isinstance(t, (int, SymbolicInt)) and not isinstance(t, bool) for t in obj) and \
+            any(isinstance(t, SymbolicInt) for t in obj)
+    if not ok:
+        return obj
+    return [realize(t) for t in obj]
+
+
+def s_asarray(obj, *a, **k):
+    return _np.asarray(_realize_int_list(obj), *a, **k)
+
+
+def s_nparray(obj, *a, **k):
+    return _np.array(_realize_int_list(obj), *a, **k)
+
+
 # ----------------------------------------------------------------------------------------------------------- RNG
 def _deny(name):
     def denied(*a, **k):
@@ -490,7 +514,7 @@ def s_cyfunc(self, *a, **k):
 
 BASE_LAYER = {
     builtins.int: s_int, builtins.format: s_format, builtins.print: s_print,
-    _DISPATCHER_CALL: s_dispatcher, _CYFUNC_CALL: s_cyfunc,
+    _DISPATCHER_CALL: s_dispatcher, _CYFUNC_CALL: s_cyfunc, _np.asarray: s_asarray, _np.array: s_nparray,
 }
 
 
